@@ -1,0 +1,26 @@
+//go:build verif
+
+package util
+
+import (
+	builder "github.com/attestantio/go-builder-client"
+)
+
+// InjectBuilderClientC09 places a (mock) builder client in the client cache used by
+// FetchBuilderClient, so that verification harnesses can drive the relay auction
+// without network access.  Only compiled with the "verif" build tag.
+func InjectBuilderClientC09(address string, client builder.Service) {
+	buildersMu.Lock()
+	defer buildersMu.Unlock()
+	if builders == nil {
+		builders = make(map[string]builder.Service)
+	}
+	builders[address] = client
+}
+
+// ResetBuilderClientsC09 empties the client cache.
+func ResetBuilderClientsC09() {
+	buildersMu.Lock()
+	defer buildersMu.Unlock()
+	builders = make(map[string]builder.Service)
+}
